@@ -10,7 +10,8 @@ BadCols == << <<>>, <<35>>, <<114,101,100>>, <<35,49,50,51,52,53>>, <<35,49,50,5
               <<35,49,50,51,52,53,233>>, <<49,50,51,52,53,54,55,56,57>>, <<35,43,49,43,50,43,51>> >>
 Logo == <<108,111,103,111,46,112,110,103>>
 MC_Alphabet ==
-  << C("module_color", OkCol1), C("module_color", OkCol2), C("background_color", OkCol1), C("image_background_color", OkCol2) >>
+  << C("module_color", OkCol1), C("module_color", OkCol2), C("background_color", OkCol1), C("image_background_color", OkCol2),
+     C("background_color", <<35,49,49,50,50,51,51,52,52>>), C("module_color", <<65,66,67,68,69,70>>) >>      \* "#11223344", "ABCDEF"
   \o [k \in 1..Len(BadCols) |-> C("module_color", BadCols[k])]
   \o << C("background_color", BadCols[3]), C("background_color", BadCols[6]), C("image_background_color", BadCols[1]), C("image_background_color", BadCols[7]) >>
   \o << C("image", Logo), C("image", <<>>),
